@@ -103,6 +103,9 @@ def walk_direct(ctx, spec, rng):
     sched = []
     e = [some_entry(H)]
     many = [some_entry(H, i) for i in range(40)]  # one send_sd call with many entries is one message with one id
+    # the same entry in the form a relay gets from the decoder: it carries option indexes (0 of them) instead of resolved options
+    wire = H.SOMEIPSDHeader(entries=(some_entry(H),)).assign_option_indexes().build()
+    e_parsed = list(H.SOMEIPSDHeader.parse(bytes(wire))[0].entries)
 
     # one unicast destination is contacted for the very first time only after another destination (in half of the walks: the
     # multicast group) has wrapped: its ids still start at 1 with the reboot flag set
@@ -145,6 +148,9 @@ def walk_direct(ctx, spec, rng):
                 if (near_wrap and ndst > 1 and rng.random() < 0.5) or rng.random() < 0.002:
                     prot.send_sd(many[: rng.choice((2, 16, 22, 30, 40))], remote=d)
                     ctx.count("sends_with_many_entries")
+                elif ndst > 1 and rng.random() < 0.04:
+                    prot.send_sd(e_parsed, remote=d)
+                    ctx.count("sends_of_entries_that_carry_option_indexes")
                 else:
                     prot.send_sd(e, remote=d)
                 counts[d] += 1
